@@ -303,6 +303,11 @@ func (n *RootNode) Remove(ctx context.Context, req *fuse.RemoveRequest) (err err
 		return nil
 
 	case litefs.FileTypeWAL:
+		// The WAL of a node that has just lost its write authority still holds
+		// the transactions it committed; they are part of the database.
+		if !db.Writeable() {
+			return ToError(litefs.ErrReadOnlyReplica)
+		}
 		return db.RemoveWAL(ctx)
 
 	case litefs.FileTypeSHM:
